@@ -90,8 +90,16 @@ def main():
             props = ALL if h.get("property", "all") == "all" else [p.strip() for p in h["property"].split(",")]
             ok = True
             detail = []
+            # the first check extracts the facts; the others then run in parallel on the cached facts
+            outcomes = {}
+            outcomes[props[0]] = run_check(props[0], scratch)
+            if len(props) > 1:
+                from concurrent.futures import ThreadPoolExecutor
+                with ThreadPoolExecutor(max_workers=12) as ex:
+                    for pid, r_ in zip(props[1:], ex.map(lambda q: run_check(q, scratch), props[1:])):
+                        outcomes[pid] = r_
             for pid in props:
-                code, keys, out = run_check(pid, scratch)
+                code, keys, out = outcomes[pid]
                 if "facts can be extracted" in out and "FAIL" in out and "extract" in out:
                     ok = False
                     detail.append("%s: does not compile" % pid)
